@@ -304,15 +304,68 @@ def main():
             queries.append(q)
             meta[q["id"]] = mt
 
-    # ---- gaussian_tau from MIR: 1 + gaussian_noise(eps, delta, sqrt(Cu)) * Phi^-1((1 - delta)^(1/Cu)) (uninterpreted Phi^-1, powf, sqrt, ln)
-    taufn = [n for n in fns if re.fullmatch(r"(?:differential_privacy::)?dp_event::gaussian_tau", n)]
+    # ---- gaussian_tau from MIR: for all (eps, delta, Cu) the function returns 1 + gaussian_noise(eps, delta, sqrt(Cu)) * Phi^-1((1 - delta)^(1/Cu)).
+    # Phi^-1 (statrs inverse_cdf), powf, sqrt and gaussian_noise itself (C03 decides its formula) are uninterpreted functions, so
+    # the lemma says: the quantile is taken at exactly (1 - delta)^(1/Cu) and scaled by exactly that noise - no cap, no
+    # shortcut, for any parameter value. A sat answer is replayed on a grid of extreme parameters against an independent
+    # evaluation (scipy's ndtri for Phi^-1, the real gaussian_noise for the scale).
+    taufn = [n for n in fns if re.fullmatch(r"(?:(?:differential_privacy::)?dp_event::)?gaussian_tau", n)]
     tau_lemma = "not found"
-    if taufn:
+    if not taufn:
+        ck.inconclusive("gaussian_tau not found in the MIR of the current tree")
+    else:
         try:
-            k = mir.kernel(fns, taufn[0], "math")
-            tau_lemma = "translated"
+            enc = mir.Enc("math")
+
+            def uf(name, nargs):
+                def h(tr, c, a, dty):
+                    tr.enc.declare_uf(name, ["f64"] * nargs, "f64")
+                    return mir.V("f64", "(%s %s)" % (name, " ".join(x.t for x in a[-nargs:]))), "false"
+                return h
+            stubs = [(r"statrs::distribution::Normal::new", lambda tr, c, a, dty: (mir.En("Result", "0", {0: [mir.Opaque("Normal")]}), "false")),
+                     (r"<statrs::distribution::Normal as ContinuousCDF<f64, f64>>::inverse_cdf", uf("uf_inverse_cdf", 1)),
+                     (r"(?:(?:differential_privacy::)?dp_event::)?gaussian_noise", uf("uf_gaussian_noise", 3)),
+                     (r"(?:std|core)::f64::<impl f64>::sqrt", uf("uf_sqrt", 1)), (r"(?:std|core)::f64::<impl f64>::powf", uf("uf_powf", 2))]
+            tr = mir.Translator(fns, enc, stubs=stubs, inline_depth=2)
+            val, panic = tr.translate_fn(taufn[0], [mir.V("f64", "eps"), mir.V("f64", "delta"), mir.V("f64", "cu")])
+            for nm_, n_ in (("uf_inverse_cdf", 1), ("uf_gaussian_noise", 3), ("uf_sqrt", 1), ("uf_powf", 2)):
+                enc.declare_uf(nm_, ["f64"] * n_, "f64")
+            ref = "(+ 1.0 (* (uf_gaussian_noise eps delta (uf_sqrt cu)) (uf_inverse_cdf (uf_powf (- 1.0 delta) (/ 1.0 cu)))))"
+            decls = ["(declare-const eps Real)", "(declare-const delta Real)", "(declare-const cu Real)"] + list(enc.decls)
+            pre = ["(> eps 0.0)", "(> delta 0.0)", "(< delta 1.0)", "(>= cu 1.0)"] + list(enc.side)
+            lq = [dict(id="TAU/formula", script="\n".join(decls + ["(assert %s)" % x for x in pre + [lnot(panic), "(not (= %s %s))" % (val.t, ref)]]), values=["eps", "delta", "cu"]),
+                  dict(id="TAU/panic", script="\n".join(decls + ["(assert %s)" % x for x in pre + [panic]]), values=["eps", "delta", "cu"]),
+                  dict(id="TAU/witness", script="\n".join(decls + ["(assert %s)" % x for x in pre + [lnot(panic)]]), values=[])]
+            lres = {r["id"]: r for r in smt.solve_all(lq, 30.0, workers=3)}
+            ck.count(list(lres.values()))
+            tau_lemma = {k_: v_["status"] for k_, v_ in lres.items()}
+            if lres["TAU/witness"]["status"] != "sat":
+                ck.inconclusive("gaussian_tau lemma: vacuity witness is %s" % lres["TAU/witness"]["status"])
+            if lres["TAU/formula"]["status"] == "sat" or lres["TAU/panic"]["status"] == "sat":
+                from scipy.special import ndtri
+                bad = None
+                for e_ in (0.1, 1.0, 10.0):
+                    for d_ in (1e-3, 1e-7, 1e-10, 1e-13, 1e-15, 1e-16, 1e-17, 1e-20, 1e-100, 1e-300, 0.5, 0.999):
+                        for g_ in (1.0, 2.0, 5.0, 100.0, 1e6):
+                            kj = d.call(dict(op="dp_kernels", epsilon=e_, delta=d_, sensitivity=math.sqrt(g_), groups=g_))
+                            if "panic" in kj:
+                                bad = bad or ("panic", e_, d_, g_, kj["panic"], None)
+                                continue
+                            kj = kj.get("ok", {})
+                            got = float("inf") if kj.get("gaussian_tau") is None else kj["gaussian_tau"]
+                            want = 1.0 + kj["gaussian_noise"] * float(ndtri((1.0 - d_) ** (1.0 / g_)))
+                            if not (got == want or abs(got - want) <= 1e-6 * abs(want)):
+                                bad = bad or ("value", e_, d_, g_, got, want)
+                if bad and bad[0] == "value":
+                    ck.violation("keys=tau-formula/quantile-not-at-(1-delta)^(1/Cu)", "gaussian_tau(%g, %g, %g) = %r, but 1 + gaussian_noise * Phi^-1((1 - delta)^(1/Cu)) = %r: the threshold is %s the value the release bound needs" % (
+                        bad[1], bad[2], bad[3], bad[4], bad[5], "below" if bad[4] < bad[5] else "not"), dict(epsilon=bad[1], delta=bad[2], groups=bad[3], got=repr(bad[4]), want=repr(bad[5])))
+                elif bad:
+                    ck.violation("keys=tau-formula/panic", "gaussian_tau(%g, %g, %g) panics: %s" % bad[1:5], dict(epsilon=bad[1], delta=bad[2], groups=bad[3]))
+                else:
+                    ck.inconclusive("gaussian_tau differs from its formula for some (eps, delta, Cu) according to the solver (%s), but no point of the replay grid reproduces it" % json.dumps({k_: str(v_) for k_, v_ in (lres["TAU/formula"].get("model") or {}).items()})[:200])
         except mir.NotTranslatable as ex:
             tau_lemma = "not translatable: %s" % ex
+            ck.inconclusive("gaussian_tau is not translatable in the current tree: %s" % ex)
     ck.count(results)
     n_w = disagreements = 0
     for r in results:
